@@ -50,6 +50,7 @@ type replayCtx struct {
 	ctr     int
 	refVars map[string]string // "ptr:<ref>" -> go variable
 	needReader bool
+	script     string
 }
 
 const replayReader = `
@@ -119,7 +120,7 @@ const replayElems = 48
 
 func (rc *replayCtx) heapInit(name string) (string, bool) {
 	init := sanitize(name) + "!init"
-	return init, rc.u.decl[init]
+	return init, rc.u.decl[init] && strings.Contains(rc.script, "(declare-const "+init+" ")
 }
 
 // plan builds the probe list for a symbolic value of Go type t denoted by SMT term x.
@@ -251,7 +252,7 @@ func (rc *replayCtx) plan(x string, t types.Type, depth int) *cval {
 		}})
 		gf := func(name string) string {
 			init := sanitize("GF."+name) + "!init"
-			if u.decl[init] {
+			if u.decl[init] && strings.Contains(rc.script, "(declare-const "+init+" ") {
 				return "(select " + init + " " + id + ")"
 			}
 			return ""
@@ -500,9 +501,16 @@ func (rc *replayCtx) goExpr(c *cval) (string, error) {
 	case "struct":
 		st := c.goT.Underlying().(*types.Struct)
 		var fs []string
+		foreign := false
+		if nt, ok := c.goT.(*types.Named); ok && nt.Obj().Pkg() != rc.pkg {
+			foreign = true
+		}
 		for i, f := range c.fields {
 			if f.kind == "unsupported" {
 				continue
+			}
+			if foreign && !st.Field(i).Exported() {
+				continue // cannot be set from here; stays at its zero value
 			}
 			e, err := rc.goExpr(f)
 			if err != nil {
@@ -651,7 +659,10 @@ func doReplay(e *Engine, u *Unit, o *Obligation, fn *ssa.Function, repo string) 
 			why = fmt.Sprintf("replay generator failed: %v", r)
 		}
 	}()
-	rc := &replayCtx{u: u, fn: fn, imports: map[string]string{}, pkg: fn.Pkg.Pkg, refVars: map[string]string{}}
+	rc := &replayCtx{u: u, fn: fn, imports: map[string]string{}, pkg: fn.Pkg.Pkg, refVars: map[string]string{}, script: o.scriptText}
+	if o.Result != "sat" && o.Candidate != "" {
+		rc.script = o.Candidate
+	}
 	// 1. plan probes for every parameter
 	var params []*cval
 	var pterms []string
@@ -719,7 +730,10 @@ func doReplay(e *Engine, u *Unit, o *Obligation, fn *ssa.Function, repo string) 
 	rest := res.out[strings.Index(res.out, "sat")+3:]
 	sxs, err := parseSexprs(rest)
 	if err != nil || len(sxs) == 0 || len(sxs[0].list) != len(rc.probes) {
-		return false, "", "cannot parse the model values"
+		if os.Getenv("GOVC_DEBUG") != "" {
+			os.WriteFile("/tmp/govc-debug-replay.out", []byte(res.out), 0o644)
+		}
+		return false, "", "cannot parse the model values: " + firstLines(rest, 3)
 	}
 	for i, pr := range rc.probes {
 		pair := sxs[0].list[i]
